@@ -340,7 +340,7 @@ func r18_3(c *Ctx, rule string) {
 					continue
 				}
 				// (a helper that computes the target stands for each value it can return)
-				for _, val := range eng.ResolveAll(s.Val) {
+				for _, val := range eng.ResolveNZ(s.Val) {
 					if val == ssa.Value(clean) {
 						nAbs++
 						continue
@@ -363,7 +363,7 @@ func r18_3(c *Ctx, rule string) {
 	c.R.Floor(rule, "relative link target constructions", nRel, 1)
 	// the absolute arm is guarded by IsAbs(link)
 	for _, call := range c.P.CallsTo(rs, "path/filepath.IsAbs") {
-		c.R.Check(call.Common().Args[0] == ssa.Value(clean), rule, c.siteName(call)+"/on-cleaned", c.pos(call), "IsAbs of the cleaned link", "IsAbs is not applied to the cleaned link")
+		c.R.Check(eng.Resolve(call.Common().Args[0]) == ssa.Value(clean), rule, c.siteName(call)+"/on-cleaned", c.pos(call), "IsAbs of the cleaned link", "IsAbs is not applied to the cleaned link")
 	}
 	// append: p = Join(".", p) before the loop
 	okRe := false
